@@ -59,6 +59,11 @@ class Symbolizer:
         n = self.names[i]
         n = re.sub(r"\(.*\)$", "", n)       # drop the parameter list
         n = re.sub(r"\[abi:\w+\]", "", n)
+        # drop template arguments: which instantiation reports first depends on TSan-internal state
+        prev = None
+        while prev != n:
+            prev = n
+            n = re.sub(r"<[^<>]*>", "", n)
         return n
 
     def sig(self, s):
@@ -69,7 +74,7 @@ class Symbolizer:
             acc = []
             for p in parts[1:3]:
                 m = re.match(r"lib\+0x([0-9a-f]+)\((\w)(\d+)\)", p)
-                acc.append("%s(%s)" % (self.name(int(m.group(1), 16)), "write" if m.group(2) == "w" else "read") if m else p)
+                acc.append(self.name(int(m.group(1), 16)) if m else p)
             acc.sort()
             rest = " ".join(parts[3:])
             rest = re.sub(r"lib\+0x([0-9a-f]+)", lambda m: self.name(int(m.group(1), 16)), rest)
